@@ -455,7 +455,9 @@ class Consumer(object):
 
         # Clear and possibly callback our start() Deferred
         self._start_d, d = None, self._start_d
-        if not d.called:
+        # (d is None when cancelling the processor above completed a pending
+        # shutdown(), which has stopped the consumer already)
+        if d is not None and not d.called:
             d.callback(self._last_processed_offset)
 
         # Return the offset of the message we last processed.
